@@ -515,7 +515,7 @@ d2i_array (const double *src, int count, int *dest, double scale)
 static void
 d2i_clip_array (const double *src, int count, int *dest, double scale)
 {	for (int i = 0 ; i < count ; i++)
-	{	float tmp = scale * src [i] ;
+	{	double tmp = scale * src [i] ;
 
 		if (tmp > (1.0 * INT_MAX))
 			dest [i] = INT_MAX ;
